@@ -166,27 +166,27 @@ def _w(**kw):
 
 
 BODY = {
-    'C01': _w(new_mps=3, new_mpo=2, orthonormalize=10, edit=3, add=2, sub=1, apply=1.5, matmul=0.7, compress=1,
+    'C01': _w(share_copy=0.6, new_mps=3, new_mpo=2, orthonormalize=10, edit=3, add=2, sub=1, apply=1.5, matmul=0.7, compress=1,
               as_vector=0.5, as_matrix=0.3, deepcopy=0.5, norm=0.3, zero_qnumbers=0.3, identity=0.3),
-    'C02': _w(new_mps=2, new_mpo=1, ham=1.2, herm_mpo=0.6, identity=0.4, from_vector=0.8, orthonormalize=2.5, compress=2.5,
+    'C02': _w(share_copy=0.6, kernel=0.5, new_mps=2, new_mpo=1, ham=1.2, herm_mpo=0.6, identity=0.4, from_vector=0.8, orthonormalize=2.5, compress=2.5,
               add=2, sub=1.5, matmul=1, apply=2, split_merge=2, tdvp=1.5, dmrg=1, edit=0.7, deepcopy=0.4,
               zero_qnumbers=0.4, vdot=0.3),
     'C03': _w(new_mps=2.5, new_mpo=2.5, identity=1.2, add=4, sub=3, matmul=3, apply=3.5, as_vector=2, as_matrix=2.5,
               from_vector=2, split_merge=3, orthonormalize=0.7, edit=0.7, deepcopy=0.3, ham=0.5),
     'C04': _w(new_mps=3, new_mpo=2, ham=1, herm_mpo=1, vdot=4, norm=2, op_avg=3, op_inner=3, op_density=2.5, env_blocks=5,
               orthonormalize=1.5, compress=1, add=1, apply=1, tdvp=0.5, dmrg=0.3, edit=0.7, matmul=0.4),
-    'C08': _w(tdvp=10, orthonormalize=0.8, deepcopy=0.5, norm=0.5, op_avg=0.7, new_mps=1, as_vector=0.3, vdot=0.3, edit=1.2, compress=0.3),
-    'C09': _w(tdvp=6, tdvp_reverse=4, new_mps=1.2, deepcopy=0.4, orthonormalize=0.5, op_avg=0.3, edit=0.8),
-    'C10': _w(dmrg=10, orthonormalize=0.6, deepcopy=0.5, new_mps=1.2, op_avg=0.6, norm=0.3, tdvp=0.3, edit=1.0, compress=0.3),
-    'C11': _w(new_mps=4, new_mpo=2, orthonormalize=9, edit=3, add=1.5, apply=1, tdvp=1.2, dmrg=0.8, compress=0.5,
+    'C08': _w(share_copy=0.3, tdvp=10, orthonormalize=0.8, deepcopy=0.5, norm=0.5, op_avg=0.7, new_mps=1, as_vector=0.3, vdot=0.3, edit=1.2, compress=0.3),
+    'C09': _w(share_copy=0.3, tdvp=6, tdvp_reverse=4, new_mps=1.2, deepcopy=0.4, orthonormalize=0.5, op_avg=0.3, edit=0.8),
+    'C10': _w(share_copy=0.3, dmrg=10, orthonormalize=0.6, deepcopy=0.5, new_mps=1.2, op_avg=0.6, norm=0.3, tdvp=0.3, edit=1.0, compress=0.3),
+    'C11': _w(share_copy=0.6, kernel=5, zero_qnumbers=0.5, new_mps=4, new_mpo=2, orthonormalize=9, edit=3, add=1.5, apply=1, tdvp=1.2, dmrg=0.8, compress=0.5,
               deepcopy=0.3, ham=0.4, herm_mpo=0.3),
-    'C12': _w(new_mps=3.5, split_merge=7, compress=5, from_vector=2.5, add=2.5, sub=1, apply=1, tdvp=1.2, dmrg=0.8,
+    'C12': _w(share_copy=0.6, kernel=5, zero_qnumbers=0.5, deepcopy=0.4, new_mps=3.5, split_merge=7, compress=5, from_vector=2.5, add=2.5, sub=1, apply=1, tdvp=1.2, dmrg=0.8,
               edit=2, orthonormalize=0.7, ham=0.4, herm_mpo=0.3),
-    'C13': _w(new_mps=3, compress=9, from_vector=4, add=3, sub=1.5, apply=1.5, tdvp=0.8, edit=1.5, orthonormalize=0.7,
+    'C13': _w(share_copy=0.6, new_mps=3, compress=9, from_vector=4, add=3, sub=1.5, apply=1.5, tdvp=0.8, edit=1.5, orthonormalize=0.7,
               deepcopy=0.4, ham=0.4, new_mpo=0.5, herm_mpo=0.2),
     'C14': _w(tdvp=5, dmrg=5, new_mps=1, orthonormalize=0.3, tdvp_reverse=0.5),
     'C15': _w(tdvp=5, dmrg=5, new_mps=1, orthonormalize=0.3, tdvp_reverse=0.5),
-    'C19': _w(new_mps=2, new_mpo=1.5, ham=0.8, herm_mpo=0.6, identity=0.5, from_vector=1, orthonormalize=2, compress=2,
+    'C19': _w(share_copy=0.6, kernel=1, new_mps=2, new_mpo=1.5, ham=0.8, herm_mpo=0.6, identity=0.5, from_vector=1, orthonormalize=2, compress=2,
               add=3, sub=2, matmul=1.5, apply=3, split_merge=1, tdvp=1.2, dmrg=1, edit=1.5, deepcopy=1, zero_qnumbers=0.8,
               vdot=1, norm=0.5, op_avg=1, op_inner=1, op_density=0.7, as_vector=1, as_matrix=1, env_blocks=0.7),
     'C20': _w(ham=10, new_mps=0.5, orthonormalize=0.5, op_avg=0.3),
@@ -428,6 +428,8 @@ def gen_op(rng: Rng, cfg, kind: str) -> dict:
         return {'op': 'from_vector', 'sel': s(), 'tol': rng.pick(DYADIC_TOLS) if rng.chance(0.6) else 0.0}
     if kind == 'deepcopy':
         return {'op': 'deepcopy', 'sel': s()}
+    if kind == 'share_copy':
+        return {'op': 'share_copy', 'sel': s()}
     if kind == 'orthonormalize':
         return {'op': 'orthonormalize', 'sel': s(), 'mode': rng.pick(['left', 'right']),
                 'kind': rng.wpick([('mps', 3), ('mpo', 1)]) if profile not in ('C08', 'C09', 'C10') else 'mps'}
@@ -440,7 +442,7 @@ def gen_op(rng: Rng, cfg, kind: str) -> dict:
     if kind == 'edit':
         return {'op': 'edit', 'sel': s(), 'kind': rng.wpick([('mps', 3), ('mpo', 1)]), 'site': s(),
                 'what': rng.pick(['scale', 'scale_inplace', 'clamp', 'bonddiag', 'real', 'int', 'zero_site', 'dupbond', 'product', 'ghz', 'staircase',
-                                  'staircase', 'unbalance', 'tiny', 'local_op_inplace']),
+                                  'staircase', 'unbalance', 'tiny', 'local_op_inplace', 'uniform', 'nearly_one']),
                 'step': rng.pick([1, 1, 4, 8, 10]),
                 'sub': s(), 'factor': rng.pick([2.0, -1.0, 0.5, 1e-3, 1e3, [0.0, 1.0], 0.25])}
     if kind in ('add', 'sub'):
@@ -453,10 +455,15 @@ def gen_op(rng: Rng, cfg, kind: str) -> dict:
         return {'op': 'split_merge', 'sel': s(), 'site': s(), 'distr': rng.pick(['left', 'right', 'sqrt']),
                 'tol': rng.pick(DYADIC_TOLS) if rng.chance(0.5) else 0.0, 'exact_tie': rng.chance(0.3), 'between': rng.chance(0.3),
                 'tolscale': rng.random()}
+    if kind == 'kernel':
+        return {'op': 'kernel', 'which': rng.pick(['qr', 'svd']), 'sel': s(), 'site': s(), 'reuse': rng.chance(0.5),
+                'mutate': rng.pick(['negate', 'shift', 'scribble_result', 'permute']), 'sub': s(),
+                'magnitude': rng.wpick([('normal', 6), ('tiny', 1), ('huge', 1)]),
+                'tol': rng.pick(DYADIC_TOLS) if rng.chance(0.5) else 0.0}
     if kind == 'tdvp':
         return {'op': 'tdvp', 'H': s(), 'psi': s(), 'sites': rng.pick([1, 1, 2]), 'dt': _dt(rng, profile, cfg.get('complete')),
                 'n': rng.pick([1, 1, 2, 3]), 'numiter': rng.pick(NUMITERS_TDVP) if profile != 'C09' else rng.pick([12, 16, 25, 40]),
-                'tol_split': 0.0 if (profile in ('C08', 'C09') or rng.chance(0.6)) else rng.pick([1e-10, 1e-6, 1e-3, 0.0625])}
+                'tol_split': 0.0 if ((profile in ('C08', 'C09') and rng.chance(0.85)) or rng.chance(0.6)) else rng.pick([1e-10, 1e-7, 1e-6, 1e-3, 0.0625])}
     if kind == 'tdvp_reverse':
         return {'op': 'tdvp_reverse', 'H': s(), 'psi': s(), 'dt': _dt(rng, 'C09', False), 'n': rng.pick([1, 1, 2, 3]),
                 'numiter': rng.pick([12, 16, 25, 40])}
